@@ -84,7 +84,7 @@ func genDearmorAdversarial(h *H, n int) {
 			p := strings.Index(good, ". ") + 2
 			if good[p] != '.' {
 				txt = good[:p] + good[p+1:]
-				a["must_reject"], a["why"] = "dearmor-accepts-corrupt-body", "one payload character removed"
+				a["why"] = "one payload character removed (accepted only if the rest is still a canonical encoding)"
 			}
 		case 10: // the expected type differs
 			other := map[string]string{"0": "1", "1": "2", "2": "0"}[typ]
@@ -93,9 +93,21 @@ func genDearmorAdversarial(h *H, n int) {
 		case 11: // whitespace-only padding outside the frame, long
 			txt = strings.Repeat(" \n", 300) + good + strings.Repeat("\n", 50)
 			a["want"], a["why"] = hx(payload), "whitespace around the frame"
-		case 12: // extra words in the header
-			txt = strings.Replace(good, "BEGIN ", "BEGIN A B ", 1)
-			a["must_reject"], a["why"] = "dearmor-accepts-bad-frame", "too many words in the header"
+		case 12: // extra words in the header, or in both sentences consistently
+			if h.rng.Intn(2) == 0 {
+				txt = strings.Replace(good, "BEGIN ", "BEGIN A B ", 1)
+			} else {
+				extra := []string{"EVIL ", "X Y ", "SALTPACK "}[h.rng.Intn(3)]
+				at := []string{"SALTPACK ", "ENCRYPTED ", "SIGNED ", "DETACHED ", "MESSAGE", "SIGNATURE"}[h.rng.Intn(6)]
+				if !strings.Contains(good, at) {
+					at = "SALTPACK "
+				}
+				if brand == "" && at == "SALTPACK " && extra == "EVIL " {
+					extra = "EVIL TWO " // one extra word in front of SALTPACK would just be a brand
+				}
+				txt = strings.Replace(good, at, extra+at, 2)
+			}
+			a["must_reject"], a["why"] = "dearmor-accepts-bad-frame", "too many words in the frame"
 		case 13: // no chk
 			typ = "none"
 		default: // random byte-level mutation
@@ -155,6 +167,36 @@ func genSmallAlphabet(h *H, maxLen int) {
 		}
 		if h.rng.Intn(8) == 0 {
 			sf.WriteString("X")
+		}
+		if i%3 == 0 {
+			// near-valid frames: a valid word list with words inserted, deleted or duplicated, the same
+			// way in header and footer
+			typ := [][]string{{"ENCRYPTED", "MESSAGE"}, {"SIGNED", "MESSAGE"}, {"DETACHED", "SIGNATURE"}}[h.rng.Intn(3)]
+			ws := []string{"BEGIN"}
+			if h.rng.Intn(2) == 0 {
+				ws = append(ws, "KB")
+			}
+			ws = append(append(ws, "SALTPACK"), typ...)
+			for e := h.rng.Intn(3); e > 0; e-- {
+				p := 1 + h.rng.Intn(len(ws))
+				switch h.rng.Intn(3) {
+				case 0:
+					ws = append(ws[:p], append([]string{[]string{"EVIL", "KB", "SALTPACK", "MESSAGE", "0"}[h.rng.Intn(5)]}, ws[p:]...)...)
+				case 1:
+					if p < len(ws) {
+						ws = append(ws[:p], ws[p+1:]...)
+					}
+				default:
+					if p < len(ws) {
+						ws = append(ws[:p], append([]string{ws[p]}, ws[p:]...)...)
+					}
+				}
+			}
+			sb.Reset()
+			sf.Reset()
+			sb.WriteString(strings.Join(ws, " "))
+			ws[0] = "END"
+			sf.WriteString(strings.Join(ws, " "))
 		}
 		h.tag("frame-words")
 		h.Run(Case{Op: "frame_check", A: map[string]string{"hdr": hx([]byte(sb.String())), "ftr": hx([]byte(sf.String())), "typ": strconv.Itoa(h.rng.Intn(4))}})
